@@ -122,40 +122,45 @@ example : int32Known (some .sm) = true ∧ Spec.representable (some .sm) 9 (-255
 
 /-- **C01, multiplexer tier.** Requests/responses whose top-level parameters are tier-2 parameters (VALUE / CODED-CONST
     leaves over the five leaf kinds, arbitrarily nested structures) or MULTIPLEXERs: a switch key (an `A_INT32` /
-    `A_UINT32` object at the key's byte/bit position), any list of CASEs — those declared before and after the selected
-    one are arbitrary (`MuxCaseD` of the model) —, an optional DEFAULT-CASE, and a selected case whose structure is a
-    tier-2 structure and which is the first case of its name and the first one claiming its lower limit
-    (`MuxLeaf.ok`; with overlapping cases the decoder would pick another case). The value is `(case name, content)`;
-    the encoder writes the case's lower limit as switch key. If strict `Request.encode` returns a PDU without an
-    overlap warning, strict `Request.decode` returns exactly the value tree, `(case name, content)` included. -/
+    `A_UINT32` object at the key's byte/bit position), any list of CASEs (`MuxCaseD` of the model; the ones not selected
+    are arbitrary), an optional DEFAULT-CASE, and a selected case — a regular CASE or the DEFAULT-CASE — whose structure
+    is a tier-2 structure. `MuxLeaf.ok` asks that encoder and decoder select the same case (`encSel`, `decSel`):
+    `MuxLeaf.sel_of_case` gives that for a CASE that is the first of its name and the first claiming its lower limit
+    (with overlapping cases the decoder would pick another one), `MuxLeaf.sel_of_default` gives it for the DEFAULT-CASE
+    with **no** condition on the cases (`C01_mux_default_key`). The value is `(case name, content)`. If strict
+    `Request.encode` returns a PDU without an overlap warning, strict `Request.decode` returns exactly the value tree. -/
 theorem C01_roundtrip_mux (is : List Item) (hneed : Items.need is + 2 ≤ modelFuel) (hok : Items.okAll is)
     (hn : Items.namesOk is) (trig : Option Bytes) (pdu : Bytes)
     (henc : encodeMessage none (Items.toParams is) (.dict (Items.pair is).val) trig true = .ok (pdu, 0)) :
     ∃ cursor, decodeMessage none (Items.toParams is) pdu true = .ok (.dict (Items.pair is).val, cursor) :=
   items_roundtrip_msg is hneed hok hn trig pdu henc
 
-/-! non-vacuity: [sid, MUX at byte 1 {key: 4 bits at bit 4 of the mux's first byte; cases hi 8..15 (declared first,
-    no structure), lo 2..3 (selected: structure {a: 8 bit, b: 16 bit low-high}), DEFAULT-CASE}, y] -/
+/-! non-vacuity: [sid, MUX m at byte 1 {key: 4 bits at bit 4 of the mux's first byte; cases hi 8..15 (declared first,
+    no structure), lo 2..3 (selected by name: structure {a: 8 bit, b: 16 bit low-high}), z 0..1}, MUX d selecting the
+    DEFAULT-CASE of unsorted cases {16..31, 0..15} → key 32, y] -/
+def exKids : List Tree :=
+  [.int ⟨"a", none, none, none, true, 8, .uint32⟩ (.int 7), .int ⟨"b", none, none, some .sm, false, 16, .int32⟩ (.int (-2))]
+def exMux : MuxLeaf :=
+  { name := "m", bytePos := none, muxBp := 1, swBp := 0, key := ⟨"", none, some 4, none, true, 4, .uint32⟩,
+    cases := [.mk "hi" 8 15 none, .mk "lo" 2 3 (some (.struct none (Trees.toParams exKids))), .mk "z" 0 1 none],
+    dflt := some ("other", none), caseName := "lo", lo := 2, kids := exKids }
+def exMuxD : MuxLeaf :=
+  { name := "d", bytePos := none, muxBp := 1, swBp := 0, key := ⟨"", none, none, none, true, 8, .uint32⟩,
+    cases := [.mk "high" 16 31 none, .mk "low" 0 15 none],
+    dflt := some ("rest", some (.struct none (Trees.toParams [.int ⟨"q", none, none, none, true, 8, .uint32⟩ (.int 9)]))),
+    caseName := "rest", lo := 32, kids := [.int ⟨"q", none, none, none, true, 8, .uint32⟩ (.int 9)] }
 def exItems : List Item :=
-  [.tree (.const ⟨"sid", none, none, none, true, 8, .uint32⟩ (.int 0x22)),
-   .mux { name := "m", bytePos := none, muxBp := 1, swBp := 0, key := ⟨"", none, some 4, none, true, 4, .uint32⟩,
-          before := [.mk "hi" 8 15 none], after := [.mk "z" 0 1 none], caseName := "lo", lo := 2, up := 3,
-          kids := [.int ⟨"a", none, none, none, true, 8, .uint32⟩ (.int 7),
-                   .int ⟨"b", none, none, some .sm, false, 16, .int32⟩ (.int (-2))] } (some ("other", none)),
+  [.tree (.const ⟨"sid", none, none, none, true, 8, .uint32⟩ (.int 0x22)), .mux exMux, .mux exMuxD,
    .tree (.int ⟨"y", none, none, none, true, 8, .uint32⟩ (.int 0xA5))]
 example : (encodeMessage none (Items.toParams exItems) (.dict (Items.pair exItems).val) none true).toOption
-    = some ([0x22, 0x20, 0x07, 0x02, 0x80, 0xA5], 0) := by decide +kernel
+    = some ([0x22, 0x20, 0x07, 0x02, 0x80, 0x20, 0x09, 0xA5], 0) := by decide +kernel
 example : (Items.pair exItems).val =
-    [("sid", .atom (.int 0x22)), ("m", .pair "lo" (.dict [("a", .atom (.int 7)), ("b", .atom (.int (-2)))])), ("y", .atom (.int 0xA5))] := rfl
+    [("sid", .atom (.int 0x22)), ("m", .pair "lo" (.dict [("a", .atom (.int 7)), ("b", .atom (.int (-2)))])),
+     ("d", .pair "rest" (.dict [("q", .atom (.int 9))])), ("y", .atom (.int 0xA5))] := rfl
 example : Items.need exItems + 2 ≤ modelFuel := by decide
-example : Items.okAll exItems ∧ Items.namesOk exItems := by
-  refine ⟨⟨?_, ?_, ?_, trivial⟩, ?_⟩
-  · simp [Item.ok, Tree.okAll, Tree.namesOk, Obj.ok, Obj.encOk, Obj.sizeOk, Obj.inRange]
-  · simp [Item.ok, MuxLeaf.ok, MuxLeaf.keyObj, Obj.ok, Obj.encOk, Obj.sizeOk, Obj.isInt, Obj.inRange, caseOfKey, caseOfName,
-      MuxCaseD.lower, MuxCaseD.upper, MuxCaseD.name, Trees.okAll, Tree.okAll, Trees.namesOk, Tree.namesOk, Tree.name,
-      int32Known, int32InRange]
-  · simp [Item.ok, Tree.okAll, Tree.namesOk, Obj.ok, Obj.encOk, Obj.sizeOk, Obj.inRange]
-  · simp [exItems, Items.namesOk, Item.name, Tree.name]
+example : exMux.encSel ∧ exMux.decSel :=
+  MuxLeaf.sel_of_case exMux [.mk "hi" 8 15 none] [.mk "z" 0 1 none] 3 rfl (by decide) (by decide) (by decide)
+example : exMuxD.encSel ∧ exMuxD.decSel := MuxLeaf.sel_of_default exMuxD rfl (by decide) (by decide)
 
 /-- **The switch key written for a DEFAULT-CASE selects the DEFAULT-CASE again** — for every list of CASEs, in any
     declaration order, overlapping or not: `defaultCaseKey` (the model of `Multiplexer._get_default_case_key`: sort the
